@@ -180,11 +180,69 @@ def check_case(ctx, case, evs):
         ctx.violation('malformed-wire', name, f'{name}: {e}', scen, 'asan', meta)
     ctx.nontrivial.add((name, status, S.depth(ad), len(data)))
 
+def run_reentrancy(ctx):
+    """every send function called by two threads at once with DIFFERENT valid arguments: thread A is paused at one of its first scheduling
+    points (library function entries and lock operations - i.e. after it has prepared its data, before / while the message is buffered) and
+    thread B runs the same function completely. Each call must still put exactly its own encoding on the wire."""
+    from .. import gen, sweep
+    from collections import Counter
+    rng = ctx.sub_rng('reent')
+    names = [n for n, r in sorted(S.rows().items()) if r['data'] is not None and n not in gen.EXCLUDE]
+    jobs = []
+    per = 12
+    ks = (1, 2, 3, 4, 6, 9) if ctx.quick else tuple(range(1, 16))
+    for i in range(0, len(names), per):
+        sc = Scn(seed=ctx.seed * 7 + i, watchdog=180000)
+        sc.add('bus mode answer', 'bus brackets 0')
+        for k_, ad in enumerate(ADDRS):
+            sc.add(f'bus node {ad[0]}.{ad[1]}.{ad[2]} 0{k_}00aabbccdd{k_:02x}')
+        sc.add('debug 1', 'start @null 0')
+        exp = []
+        idx = 0
+        for name in names[i:i + per]:
+            for k in ks:
+                ca = gen.random_call(rng, rng.choice(ADDRS), names=[name], hot=0.3, long_bias=0.3)
+                cb = gen.random_call(rng, rng.choice(ADDRS), names=[name], hot=0.3, long_bias=0.3)
+                sweep.add_two_thread_case(sc, idx, [call(ca[0], *S.tokens(ca[0], ca[1], ca[2]))], [call(cb[0], *S.tokens(cb[0], cb[1], cb[2]))], k, fn=True,
+                                          after=('flush', 'quiesce', 'flush', 'quiesce'))
+                exp.append((name, Counter([(tuple(ca[1]), model.C(S.rows()[name]['type']), ca[3]), (tuple(cb[1]), model.C(S.rows()[name]['type']), cb[3])])))
+                idx += 1
+        sc.add(f'mark c{idx}', 'stop')
+        jobs.append((sc.text(), exp))
+    res = runner.run_many('asan', [(i, j[0]) for i, j in enumerate(jobs)], timeout=600)
+    for (text, exp), r in zip(jobs, res):
+        meta = {'kind': 'reentrancy'}
+        if ctx.generic_failures(r, meta) or runner.outcome(r) != 'ok':
+            continue
+        seen = batch.split_by_marks(r.events)
+        # messages deferred by the response budget surface in a later window: compare cumulatively per function block
+        carry = Counter()
+        want = Counter()
+        for i, (name, e) in enumerate(exp):
+            evs = seen.get(i, [])
+            got = Counter((tuple(x['addr']), x['type'], bytes.fromhex(x['data'])) for x in evs if x.get('e') == 'txm')
+            carry += got
+            want += e
+            ctx.evaluations += 1
+            paused = any(x.get('e') == 'paused' for x in evs)
+            ctx.count('reentrancy_cases_paused', int(paused))
+            extra = carry - want
+            if extra:
+                (a_, t_, d_), _n = list(extra.items())[0]
+                ctx.violation('foreign-bytes-under-concurrency', name, f'{name} called by two threads at once: message to {a_} type {t_:#x} data {d_.hex()} is the encoding of neither call '
+                              f'(expected {[(a, d.hex()) for (a, t, d) in e]})', text, 'asan', meta)
+                break
+        else:
+            if carry != want:
+                miss = list((want - carry).items())[:2]
+                ctx.violation('lost-under-concurrency', 'reentrancy', f'messages of concurrent calls never reached the wire: {[(a, hex(t), d.hex()) for (a, t, d), n in miss]}', text, 'asan', meta)
+        sweep.pause_stats(ctx, r.events, 'reentrancy')
+
 def run(ctx):
     cases = gen_cases(ctx)
     ctx.rule = ('boundary sweep: every public bidib_send_* x each scalar argument over 0..255 (others at a valid default) x '
                 'address depth 0-3 x buffer lengths 0..max+1 with distinct non-zero fill, white-space/FE/FD/00/FF fills and mixed content (zero bytes in front of / between other bytes, seeded random bytes); thorough adds '
-                'pairs of scalars at boundary values. non-trivial = distinct (function, accept/reject/either, depth, data length) '
+                'pairs of scalars at boundary values; re-entrancy: every function called by two threads with different arguments, one paused at its first scheduling points while the other runs. non-trivial = distinct (function, accept/reject/either, depth, data length) '
                 'whose expected message was found on the wire')
     ctx.assumptions = ['spec table vlib/spec_lowlevel.py (from header docs + bidib_messages.h)', 'low-level debug mode bypasses only the uplink dispatch',
                        'gcc ASan+UBSan with 512-byte red zones; exact-size heap buffers for pointer arguments']
@@ -215,6 +273,7 @@ def run(ctx):
         else:
             for v in r.viols():
                 ctx.violation(v['cls'], v['msg'].split(' ')[0], v['msg'], r.scenario, 'asan')
+    run_reentrancy(ctx)
     ctx.cov['functions_exercised'] = len(fns)
     ctx.cov['functions_in_spec'] = len(S.rows())
     ctx.sample({'fn': cases[0][0], 'addr': cases[0][1], 'args': {k: (v.hex() if isinstance(v, bytes) else v) for k, v in cases[0][2].items()}})
